@@ -98,6 +98,23 @@ Theorem C19_timeout_calls : forall id k, call_ok (CkRetryTimeout k) = true ->
   (retryable_kind k = true -> implements_retry e = true).
 Proof. exact timeout_calls. Qed.
 
+(* "identifiable" in both directions: for everything built from the real constructors and the real
+   calls (any nesting), errors.As finds a RequestTimeoutError exactly when an expired response timeout
+   is in the chain - a connection that closes while the request runs under RetryClient's request
+   context (whose Err() is non-nil all the time) is NOT a timeout *)
+Theorem C19_rt_iff_expired : forall d, shaped d = true -> errors_as AsReqTimeout (build d) = spec_has_rt d.
+Proof. exact rt_iff_expired. Qed.
+
+Theorem C19_closed_under_request_context : forall id k p2, call_ok (CkRetryClosed k p2) = true ->
+  let e := call_error id (CkRetryClosed k p2) ENil in
+  errors_is e (ESent SClosedTransport) = RTrue /\ errors_as AsReqTimeout e = false /\
+  implements_retry e = true /\ error_panics e = false.
+Proof. exact closed_under_request_context. Qed.
+
+(* "inspectable" includes the text: Error() of a chain of library wrappers over a sentinel never panics *)
+Theorem C19_error_text_total : forall e, lib_chain e = true -> error_panics e = false.
+Proof. exact error_text_total. Qed.
+
 (* ... and on the RETRANSMISSION path (RetryClient.Retry runs the closure queued by queueRetry under
    requestContext): for every handle the library produces and every number of consecutive timed-out
    retransmissions, the error handed to OnError is identifiable as RequestTimeoutError, shows
@@ -173,6 +190,9 @@ Print Assumptions C19_eof_unwrapped.
 Print Assumptions C19_eof_only_bare.
 Print Assumptions C19_timeout_identifiable.
 Print Assumptions C19_timeout_calls.
+Print Assumptions C19_rt_iff_expired.
+Print Assumptions C19_closed_under_request_context.
+Print Assumptions C19_error_text_total.
 Print Assumptions C19_timeout_retx_rounds.
 Print Assumptions C19_timeout_retx_calls.
 Print Assumptions C19_ctx_error_found.
